@@ -139,6 +139,20 @@ class Rig:
         probs = []
         c = self.c
         self.w.settle()
+        # frames forwarded before the change took effect are still queued: the API must not hand out a type the client
+        # no longer reports as subscribed (unsubscribed or paused)
+        claimed = c.subscribed_types
+        for _ in range(12):
+            if not c._sock.rx:
+                break
+            try:
+                m = c.read_message(timeout=0)
+            except Exception as e:
+                probs.append({"kind": "read_message-raised", "where": where + " (queued)", "exc": f"{type(e).__name__}: {e}"})
+                break
+            if m is not None and m.header.src_mod_id == 21 and claimed != {ALL} and m.header.msg_type not in claimed:
+                probs.append({"kind": "queued-frame-of-dropped-type-returned", "where": where, "type": NAMES.get(m.header.msg_type, m.header.msg_type),
+                              "paused": m.header.msg_type in c.paused_subscribed_types})
         self.drain_client()
         for mt in (A, B, C, D):
             self.pub.send(P.mkframe(mt, b"", timecode=self.tc, src_mod_id=21))
@@ -172,6 +186,12 @@ class Rig:
                           "arrived": [NAMES[t] for t in arrived]})
         return probs
 
+    def inflight(self):
+        """publish every type and let the manager forward: whatever the client is subscribed to now sits unread in its socket"""
+        for mt in (A, B, C, D):
+            self.pub.send(P.mkframe(mt, b"", timecode=self.tc, src_mod_id=21))
+        self.w.settle()
+
     def close(self):
         self.w.stop()
 
@@ -186,6 +206,8 @@ def run_history(tc: bool, hist: Sequence[Tuple], last_only: bool = True) -> Dict
       try:
           res = None
           for i, op in enumerate(hist):
+              if i == len(hist) - 1:
+                  rig.inflight()
               res = rig.apply(op)
               if i < len(hist) - 1 and not last_only:
                   probs += rig.probe(f"after op {i}")
